@@ -204,7 +204,7 @@ type sendJoinCall struct {
 	room    string
 	eventID string
 	event   []byte
-	expired []string // servers whose key the key database reports as no longer valid
+	expired map[string]string // servers whose key the key database reports as no longer valid: "expired" | "revoked"
 }
 
 func (w *world) concreteSendJoin(q *Msg) sendJoinCall {
@@ -214,8 +214,8 @@ func (w *world) concreteSendJoin(q *Msg) sendJoinCall {
 	if q.Eid != "match" {
 		c.eventID = w.anotherEventID()
 	}
-	if q.Ev.Sig == "expired" {
-		c.expired = []string{q.Ev.Ssrv}
+	if q.Ev.Sig == "expired" || q.Ev.Sig == "revoked" {
+		c.expired = map[string]string{q.Ev.Ssrv: q.Ev.Sig}
 	}
 	return c
 }
@@ -252,7 +252,7 @@ func (w *world) callSendJoin(c sendJoinCall) outcome {
 		LocalServerName:   R.name,
 		KeyID:             R.keyID,
 		PrivateKey:        R.priv,
-		Verifier:          keyRing(c.expired...),
+		Verifier:          keyRing(c.expired),
 		MembershipQuerier: membershipQuerier{w.sc.Mem},
 		UserIDQuerier:     userIDQuerier(w.sc.UQ),
 		StoreSenderIDFromPublicID: func(ctx context.Context, senderID spec.SenderID, userID string, id spec.RoomID) error {
@@ -289,13 +289,13 @@ func (w *world) judgeReturned(o *outcome, submitted, returned []byte) {
 type inviteCall struct {
 	room    string
 	event   []byte
-	expired []string
+	expired map[string]string
 }
 
 func (w *world) concreteInvite(q *Msg) inviteCall {
 	c := inviteCall{room: w.roomID(q.Room), event: w.concreteEvent(*q.Ev, t0.Add(2*time.Hour))}
-	if q.Ev.Sig == "expired" {
-		c.expired = []string{q.Ev.Ssrv}
+	if q.Ev.Sig == "expired" || q.Ev.Sig == "revoked" {
+		c.expired = map[string]string{q.Ev.Ssrv: q.Ev.Sig}
 	}
 	return c
 }
@@ -320,7 +320,7 @@ func (w *world) callInvite(c inviteCall) outcome {
 		InviteEvent:       ev,
 		KeyID:             R.keyID,
 		PrivateKey:        R.priv,
-		Verifier:          keyRing(c.expired...),
+		Verifier:          keyRing(c.expired),
 		RoomQuerier:       roomQuerier{w.sc.Known},
 		MembershipQuerier: membershipQuerier{w.sc.Mem},
 		StateQuerier:      stateQuerier{w},
@@ -375,7 +375,7 @@ func (w *world) callInviteV3(q *Msg) outcome {
 			InvitedSenderID:   invitedSender,
 			KeyID:             R.keyID,
 			PrivateKey:        R.priv,
-			Verifier:          keyRing(),
+			Verifier:          keyRing(nil),
 			RoomQuerier:       roomQuerier{w.sc.Known},
 			MembershipQuerier: membershipQuerier{w.sc.Mem},
 			StateQuerier:      stateQuerier{w},
